@@ -216,7 +216,9 @@ Spec == Init /\ [][Next]_vars
 
 \* ================================================================ laws
 TypeOK ==
-  /\ sc \in Scenarios /\ now \in Nat /\ ctxDone \in BOOLEAN
+  /\ sc.D \in Nat /\ sc.x \in Nat \cup {Never} /\ sc.onint \in {"die", "ignore"}
+  /\ sc.ok \in BOOLEAN /\ sc.neg \in BOOLEAN /\ sc.fg \in BOOLEAN
+  /\ now \in Nat /\ ctxDone \in BOOLEAN
   /\ mpc \in {"wait", "recv", "ret", "done"}
   /\ wpc \in {"select1", "signal", "select2", "kill", "send", "sendnil", "exit"}
   /\ child \in {"run", "zombie", "reaped"} /\ cause \in {"none", "self", "quit", "kill"}
@@ -265,7 +267,7 @@ Obs == [D |-> sc.D, x |-> sc.x, onint |-> sc.onint, ok |-> sc.ok, neg |-> sc.neg
         sig |-> IF intDelivered THEN intAt ELSE Never,
         selfexit |-> IF cause = "self" THEN exitAt ELSE Never,
         last |-> exitAt, done |-> doneAt, rundone |-> doneAt, hung |-> FALSE,
-        verdict |-> verdict, msg |-> msg, alive |-> (child # "reaped"), s |-> 3 * J]
+        verdict |-> verdict, msg |-> msg, alive |-> (child # "reaped"), s |-> 3 * J, srun |-> 3 * J, jit |-> 0]
 SatisfiesL1 == (mpc = "done" /\ sc.fg) => L1!AllLaws(Obs)
 \* ... and a run that is still going on after D + 3J would be a hung one
 NotHung == sc.fg /\ now > sc.D + 3 * J => mpc = "done"
